@@ -28,8 +28,8 @@ def rg (p : Option Int × Option Int) : Range := ⟨p.1, p.2⟩
 def Spec.source : Spec where
   v2IdLen := rg FactsC18.rng_v2_CreateCollectionRequest_len_Id
   v1IdLen := rg FactsC18.rng_v1_CreateCollectionRequest_len_Id
-  v2PathLen := rg FactsC18.rng_v2_CollectionURIMiddleware_len_v5
-  v1PathLen := rg FactsC18.rng_v1_CollectionURIMiddleware_len_v5
+  v2PathLen := rg FactsC18.rng_v2_CollectionURIMiddleware_len_a3
+  v1PathLen := rg FactsC18.rng_v1_CollectionURIMiddleware_len_a3
   flatVecSize := rg FactsC18.rng_models_IndexVectorFlatParameters_VectorSize
   vamanaVecSize := rg FactsC18.rng_models_IndexVectorVamanaParameters_VectorSize
   vamanaSearchSize := rg FactsC18.rng_models_IndexVectorVamanaParameters_SearchSize
@@ -1620,15 +1620,15 @@ theorem C18_pin_dispatch : FactsC18.dispatch = [
   ("index.indexManager.Search", "case \"_or\"", "call v1.searchParallel(v2, v3.Or, true)"),
   ("index.indexManager.Search", "case \"_id\"", "call v1.searchById(v3)"),
   ("index.indexManager.Search", "case models.IndexTypeVectorVamana", "call v1.Search(v2, *v3.VectorVamana.Filter)"),
-  ("index.indexManager.Search", "case models.IndexTypeVectorVamana", "call v17.Search(v2, *v3.VectorVamana, v11)"),
+  ("index.indexManager.Search", "case models.IndexTypeVectorVamana", "call a2.Search(v2, *v3.VectorVamana, v11)"),
   ("index.indexManager.Search", "case models.IndexTypeVectorFlat", "call v1.Search(v2, *v3.VectorFlat.Filter)"),
-  ("index.indexManager.Search", "case models.IndexTypeVectorFlat", "call v27.Search(v2, *v3.VectorFlat, v21)"),
+  ("index.indexManager.Search", "case models.IndexTypeVectorFlat", "call a2.Search(v2, *v3.VectorFlat, v16)"),
   ("index.indexManager.Search", "case models.IndexTypeText", "call v1.Search(v2, *v3.Text.Filter)"),
-  ("index.indexManager.Search", "case models.IndexTypeText", "call v32.Search(*v3.Text, v31)"),
-  ("index.indexManager.Search", "case models.IndexTypeString", "call v34.Search(*v3.String)"),
-  ("index.indexManager.Search", "case models.IndexTypeStringArray", "call v37.Search(*v3.StringArray)"),
-  ("index.indexManager.Search", "case models.IndexTypeInteger", "call v40.Search(v3.Integer.Value, v3.Integer.EndValue, v3.Integer.Operator)"),
-  ("index.indexManager.Search", "case models.IndexTypeFloat", "call v43.Search(v3.Float.Value, v3.Float.EndValue, v3.Float.Operator)")
+  ("index.indexManager.Search", "case models.IndexTypeText", "call v22.Search(*v3.Text, v21)"),
+  ("index.indexManager.Search", "case models.IndexTypeString", "call v24.Search(*v3.String)"),
+  ("index.indexManager.Search", "case models.IndexTypeStringArray", "call v27.Search(*v3.StringArray)"),
+  ("index.indexManager.Search", "case models.IndexTypeInteger", "call v30.Search(v3.Integer.Value, v3.Integer.EndValue, v3.Integer.Operator)"),
+  ("index.indexManager.Search", "case models.IndexTypeFloat", "call v33.Search(v3.Float.Value, v3.Float.EndValue, v3.Float.Operator)")
 ] := rfl
 
 theorem C18_pin_skeleton : FactsC18.skeleton = [
@@ -1854,9 +1854,9 @@ theorem C18_pin_skeleton : FactsC18.skeleton = [
   ("v2.SemaDBHandlers.HandleCreateCollection", "case cluster.ErrExists"),
   ("v2.SemaDBHandlers.HandleCreateCollection", "default"),
   ("v2.SemaDBHandlers.HandleListCollections", "if v6 != nil"),
-  ("v2.SemaDBHandlers.CollectionURIMiddleware", "if len(v5) < 3 || len(v5) > 24"),
-  ("v2.SemaDBHandlers.CollectionURIMiddleware", "if v8 == cluster.ErrNotFound"),
-  ("v2.SemaDBHandlers.CollectionURIMiddleware", "if v8 != nil"),
+  ("v2.SemaDBHandlers.CollectionURIMiddleware", "if len(a3) < 3 || len(a3) > 24"),
+  ("v2.SemaDBHandlers.CollectionURIMiddleware", "if a6 == cluster.ErrNotFound"),
+  ("v2.SemaDBHandlers.CollectionURIMiddleware", "if a6 != nil"),
   ("v2.SemaDBHandlers.HandleGetCollection", "if errors.Is(v6, cluster.ErrShardUnavailable)"),
   ("v2.SemaDBHandlers.HandleGetCollection", "if v6 != nil"),
   ("v2.SemaDBHandlers.HandleDeleteCollection", "if v6 != nil"),
@@ -1905,10 +1905,10 @@ theorem C18_pin_skeleton : FactsC18.skeleton = [
   ("v1.SemaDBHandlers.HandleCreateCollection", "default"),
   ("v1.SemaDBHandlers.HandleListCollections", "if v6 != nil"),
   ("v1.SemaDBHandlers.HandleListCollections", "if !v1(v8)"),
-  ("v1.SemaDBHandlers.CollectionURIMiddleware", "if len(v5) < 3 || len(v5) > 16"),
-  ("v1.SemaDBHandlers.CollectionURIMiddleware", "if v8 == cluster.ErrNotFound"),
-  ("v1.SemaDBHandlers.CollectionURIMiddleware", "if v8 != nil"),
-  ("v1.SemaDBHandlers.CollectionURIMiddleware", "if !v1(v7)"),
+  ("v1.SemaDBHandlers.CollectionURIMiddleware", "if len(a3) < 3 || len(a3) > 16"),
+  ("v1.SemaDBHandlers.CollectionURIMiddleware", "if a6 == cluster.ErrNotFound"),
+  ("v1.SemaDBHandlers.CollectionURIMiddleware", "if a6 != nil"),
+  ("v1.SemaDBHandlers.CollectionURIMiddleware", "if !v1(a5)"),
   ("v1.SemaDBHandlers.HandleGetCollection", "if errors.Is(v6, cluster.ErrShardUnavailable)"),
   ("v1.SemaDBHandlers.HandleGetCollection", "if v6 != nil"),
   ("v1.SemaDBHandlers.HandleDeleteCollection", "if v6 != nil"),
@@ -1951,24 +1951,24 @@ theorem C18_pin_skeleton : FactsC18.skeleton = [
   ("v1.SemaDBHandlers.HandleSearchPoints", "if len(v4.Vector) != int(v6.IndexSchema[\"vector\"].VectorVamana.VectorSize)"),
   ("v1.SemaDBHandlers.HandleSearchPoints", "if v5 != nil"),
   ("v1.SemaDBHandlers.HandleSearchPoints", "if v12.Distance != nil"),
-  ("utils.DecodeValid", "if v6 != nil"),
-  ("utils.DecodeValid", "switch v7"),
+  ("utils.DecodeValid", "if a1 != nil"),
+  ("utils.DecodeValid", "switch v6"),
   ("utils.DecodeValid", "case \"application/json\""),
   ("utils.DecodeValid", "case \"application/msgpack\""),
   ("utils.DecodeValid", "default"),
-  ("utils.DecodeValid", "if v8 != nil"),
+  ("utils.DecodeValid", "if v7 != nil"),
+  ("utils.DecodeValid", "if v9 != nil"),
   ("utils.DecodeValid", "if v10 != nil"),
-  ("utils.DecodeValid", "if v11 != nil"),
+  ("utils.DecodeValid", "if v12 != nil"),
   ("utils.DecodeValid", "if v13 != nil"),
-  ("utils.DecodeValid", "if v14 != nil"),
-  ("middleware.AppHeaderMiddleware", "if v6.PlanId == \"\" || v6.UserId == \"\""),
-  ("middleware.AppHeaderMiddleware", "if v6.UserId == \".\" || v6.UserId == \"..\" || strings.ContainsAny(v6.UserId, `/\\`)"),
-  ("middleware.AppHeaderMiddleware", "if !v9"),
+  ("middleware.AppHeaderMiddleware", "if a3.PlanId == \"\" || a3.UserId == \"\""),
+  ("middleware.AppHeaderMiddleware", "if a3.UserId == \".\" || a3.UserId == \"..\" || strings.ContainsAny(a3.UserId, `/\\`)"),
+  ("middleware.AppHeaderMiddleware", "if !a6"),
   ("cluster.ClusterNode.InsertPoints", "if v5 != nil"),
   ("cluster.ClusterNode.InsertPoints", "if v6+int64(len(v3)) > v2.UserPlan.MaxCollectionPointCount"),
-  ("cluster.ClusterNode.InsertPoints", "if v13 != nil"),
+  ("cluster.ClusterNode.InsertPoints", "if a3 != nil"),
   ("cluster.ClusterNode.InsertPoints", "if v5 != nil"),
-  ("cluster.ClusterNode.InsertPoints", "if v25 != nil"),
+  ("cluster.ClusterNode.InsertPoints", "if a7 != nil"),
   ("index.indexManager.Search", "switch v3.Property"),
   ("index.indexManager.Search", "case \"_and\""),
   ("index.indexManager.Search", "case \"_or\""),
@@ -1987,17 +1987,17 @@ theorem C18_pin_skeleton : FactsC18.skeleton = [
   ("index.indexManager.Search", "if v3.VectorVamana == nil"),
   ("index.indexManager.Search", "if v3.VectorVamana.Filter != nil"),
   ("index.indexManager.Search", "if v9 != nil"),
-  ("index.indexManager.Search", "if v20 != nil"),
+  ("index.indexManager.Search", "if a5 != nil"),
   ("index.indexManager.Search", "if v15 != nil"),
   ("index.indexManager.Search", "if v3.VectorFlat == nil"),
   ("index.indexManager.Search", "if v3.VectorFlat.Filter != nil"),
   ("index.indexManager.Search", "if v9 != nil"),
-  ("index.indexManager.Search", "if v30 != nil"),
-  ("index.indexManager.Search", "if v25 != nil"),
+  ("index.indexManager.Search", "if a5 != nil"),
+  ("index.indexManager.Search", "if v20 != nil"),
   ("index.indexManager.Search", "if v3.Text == nil"),
   ("index.indexManager.Search", "if v3.Text.Filter != nil"),
   ("index.indexManager.Search", "if v9 != nil"),
-  ("index.indexManager.Search", "if v33 != nil"),
+  ("index.indexManager.Search", "if v23 != nil"),
   ("index.indexManager.Search", "if v3.String == nil"),
   ("index.indexManager.Search", "if v3.StringArray == nil"),
   ("index.indexManager.Search", "if v3.Integer == nil"),
@@ -2013,11 +2013,11 @@ theorem C18_pin_skeleton : FactsC18.skeleton = [
   ("index.indexManager.searchById", "if v9 == nil"),
   ("cluster.ClusterNode.RPCCreateCollection", "if v2.Dest != v1.MyHostname"),
   ("cluster.ClusterNode.RPCCreateCollection", "if v5 != nil"),
-  ("cluster.ClusterNode.RPCCreateCollection", "if v8 != nil"),
-  ("cluster.ClusterNode.RPCCreateCollection", "if v7.Get(v9) != nil"),
-  ("cluster.ClusterNode.RPCCreateCollection", "if v8 != nil"),
-  ("cluster.ClusterNode.RPCCreateCollection", "if v11 >= v2.Collection.UserPlan.MaxCollections"),
-  ("cluster.ClusterNode.RPCCreateCollection", "if v13 != nil")
+  ("cluster.ClusterNode.RPCCreateCollection", "if a3 != nil"),
+  ("cluster.ClusterNode.RPCCreateCollection", "if a2.Get(a4) != nil"),
+  ("cluster.ClusterNode.RPCCreateCollection", "if a3 != nil"),
+  ("cluster.ClusterNode.RPCCreateCollection", "if a6 >= v2.Collection.UserPlan.MaxCollections"),
+  ("cluster.ClusterNode.RPCCreateCollection", "if a7 != nil")
 ] := rfl
 
 end Sema.C18
